@@ -50,7 +50,11 @@ class Program:
                 if full in self.fns: self.alloc_static[(crate, m.group(1))] = full
                 else:
                     cands = [n for n in self.fns if (n == full or n.endswith("::" + nm)) and self.fns[n].crate == crate]
-                    if cands: self.alloc_static[(crate, m.group(1))] = cands[0]
+                    if not cands:
+                        last = nm.split("::")[-1]
+                        cands = [n for n in self.fns if n.split("::")[-1] == last and getattr(self.fns[n], "is_const", False)]
+                        if len(cands) > 1: cands = []
+                    if len(cands) >= 1: self.alloc_static[(crate, m.group(1))] = cands[0]
         self.closure_fns = {}
         for n, f in self.fns.items():
             if "{closure#" in n and f.params:
@@ -72,7 +76,7 @@ class Program:
                 for m in re.finditer(r"(?:pub )?struct (\w+)(?:<[^>{]*>)?\s*(?:where[^{]*)?\{([^}]*)\}", src):
                     fields = [x.split(":")[0].strip().replace("pub ", "") for x in split_top(m.group(2)) if ":" in x]
                     layouts[(m.group(1), None)] = fields
-                for m in re.finditer(r"(?:pub )?enum (\w+)\s*\{", src):
+                for m in re.finditer(r"(?:pub )?enum (\w+)(?:<[^{]*>)?\s*(?:where[^{]*)?\{", src):
                     e = match_close(src, m.end() - 1); body = src[m.end():e]
                     vs = []; counter = -1
                     for part in split_top(body):
